@@ -12,6 +12,7 @@ import z3
 from pyvc import sym, instrument, vc as vcm
 from pyvc.arr import SymArray, check_same
 from pyvc.harness import Unit
+from pyvc import harness as _h
 from pyvc.models import fsmodel
 from pyvc.models.npmodel import NP, BUILTINS
 from pyvc.sym import SB, SI, SR, check, explore
@@ -329,12 +330,18 @@ def run_param_pickle(mutate=None):
     return r
 
 
+
+def _bounded_quick():
+    return native(0)
+
+
 def units():
     return [Unit("Solution options/attrs save->load", SOL + ":Solution._save_to_hdf5_file / Solution.from_hdf5", run_options, props=["C14"], timeout=600),
             Unit("Solution solve_step", SOL + ":Solution.__init__ / load_tdgl_data", run_solve_step, props=["C14"], timeout=300),
             Unit("Layer.to_hdf5/from_hdf5", "tdgl.device.layer:Layer.to_hdf5 / from_hdf5", run_layer, props=["C14"], timeout=300),
             Unit("EdgeMesh/Mesh/DynamicsData to_hdf5/from_hdf5", "tdgl.finite_volume.edge_mesh:EdgeMesh, tdgl.finite_volume.mesh:Mesh, tdgl.solution.data:DynamicsData", run_meshes, props=["C14"], timeout=300),
-            Unit("CompositeParameter pickle", "tdgl.parameter:CompositeParameter.__getstate__/__setstate__", run_param_pickle, props=["C14", "C16"], timeout=600)]
+            Unit("CompositeParameter pickle", "tdgl.parameter:CompositeParameter.__getstate__/__setstate__", run_param_pickle, props=["C14", "C16"], timeout=600),
+            _h.bounded_unit("real h5py round trips [bounded]", "Device / Mesh / Solution to_hdf5, from_hdf5 (real h5py)", "C14", _bounded_quick, "devices_meshes_and_solutions_survive_the_round_trip", timeout=900)]
 
 
 def native(seed=0):
